@@ -135,12 +135,30 @@ def run_case(case):
                 raise Boom('upstream failed')
             return Frame({'n': self.n})
 
+    class Prior(Filter):    # an earlier run in the same process, through the same emitter object (Filter.emitter is one object per process)
+        emitter = em
+
+        def setup(self, config):
+            self.n = 0
+
+        def process(self, frames):
+            self.n += 1
+            world.sleep(0.05)
+            if self.n > 2:
+                if case.get('prior') == 'failed':
+                    raise Boom('earlier run failed')
+                self.exit('earlier run done')
+            return None
+
     import threading
     stop_evt = threading.Event()
     cfg = {'id': 'f'}
     propagated = end in ('prop_clean', 'prop_error')
     if case.get('cfg_key') is not None:     # a filter-specific option holding a mapping with this key (class names, label maps, ffmpeg options ...)
         cfg['labels'] = {case['cfg_key']: 3, 'person': 1}
+    if case.get('cfg_val') is not None:     # a filter-specific option of a type other than str / number / list / dict
+        cfg['classes'] = {'set': {'car', 'bus'}, 'frozenset': frozenset({'car'}), 'bytearray': bytearray(b'abc'), 'bytes': b'abc', 'tuple': ('a', 1), 'none': None,
+                          'nested': [[1, 2], {'a': [3]}], 'ndarray': __import__('numpy').zeros(3), 'float_nan': float('nan')}[case['cfg_val']]
     if propagated:
         cfg['sources'] = 'tcp://127.0.0.1:6000'
     if end == 'exit_after':
@@ -154,6 +172,15 @@ def run_case(case):
                 raise
 
     def main():
+        if case.get('prior'):
+            try:
+                Prior.run({'id': 'f0'}, sig_stop=False, prop_exit='none', obey_exit='none')
+            except simnet.SimKilled:
+                raise
+            except BaseException:
+                pass
+            world.sleep(2 * case['interval_ms'] / 1000 + 0.05)     # anything the earlier run still had to say is said by now
+            res['prior_n'] = len(events)
         try:
             if case.get('caller') == 'in_handler':      # a supervisor that (re)starts the filter from inside an exception handler
                 try:
@@ -177,7 +204,7 @@ def run_case(case):
             world.spawn('up', up_main)
         if end == 'stop_evt':
             world.at(int(max(1, k * case['work_ms'] + 7) * 1_000_000), stop_evt.set)
-        horizon = (k + 6) * case['work_ms'] + (1500 if propagated else 0) + 6 * case['interval_ms'] + 40 * (case['emit_cost_ms'] + (case.get('preempt_ms') or 0)) + 3000
+        horizon = (k + 6) * case['work_ms'] + (1500 if propagated else 0) + 6 * case['interval_ms'] + 40 * (case['emit_cost_ms'] + (case.get('preempt_ms') or 0)) + 3000 + (2 * case['interval_ms'] + 20 * (case['emit_cost_ms'] + (case.get('preempt_ms') or 0)) + 2000 if case.get('prior') else 0)
         world.run(int(horizon * 1_000_000), stop=lambda: 'how' in res and world.now > res['t_end'] + int((2 * case['interval_ms'] + 10 * (case['emit_cost_ms'] + (case.get('preempt_ms') or 0)) + 200) * 1_000_000))
         hb_alive = [a.name for a in world.actors if a.name not in ('main', 'up') and not a.done]
     finally:
@@ -186,7 +213,14 @@ def run_case(case):
         lin.threading = _S['real_threading']
         lin.create_openfilter_facet_with_fields = orig_facet
     seq = [e[0] for e in events]
-    classes = [f'end {end}', f'emit cost {case["emit_cost_ms"]}', f'interval {case["interval_ms"]}'] + (['run() called from inside an exception handler'] if case.get('caller') == 'in_handler' else []) + (['config with a mapping whose key is not an identifier'] if case.get('cfg_key') is not None and not (case['cfg_key'].isidentifier() and case['cfg_key'] not in ('class', 'type')) else [])
+    if case.get('prior'):
+        pn = res.get('prior_n', 0)
+        pseq, seq = seq[:pn], seq[pn:]
+        events = events[pn:]
+        want_p = 'ABORT' if case['prior'] == 'failed' else 'COMPLETE'
+        if not (len(pseq) >= 2 and pseq[0] == 'START' and all(x == 'RUNNING' for x in pseq[1:-1]) and pseq[-1] == want_p):
+            return bad(f'earlier {case["prior"]} run in the same process emitted {pseq}', 'shape:earlier-run', [f'end {end}', 'second run in the same process'])
+    classes = [f'end {end}', f'emit cost {case["emit_cost_ms"]}', f'interval {case["interval_ms"]}'] + (['run() called from inside an exception handler'] if case.get('caller') == 'in_handler' else []) + (['second run in the same process'] if case.get('prior') else []) + ([f'config value of type {case["cfg_val"]}'] if case.get('cfg_val') else []) + (['config with a mapping whose key is not an identifier'] if case.get('cfg_key') is not None and not (case['cfg_key'].isidentifier() and case['cfg_key'] not in ('class', 'type')) else [])
     if 'how' not in res:
         return bad(f'run() did not end within the horizon ({end}); events {seq}', f'run-not-ended:{end}', classes)
     if end in ('raise_init', 'raise_setup', 'raise_process', 'raise_shutdown', 'exit_exc_process'):
@@ -227,6 +261,10 @@ def matrix_cases(tier):
                     for pre in (None, 40):
                         yield {'end': end, 'k': k, 'work_ms': 100, 'emit_cost_ms': cost, 'interval_ms': interval, 'preempt_ms': pre}
         yield {'end': end, 'k': 3, 'work_ms': 100, 'emit_cost_ms': 0, 'interval_ms': 250, 'preempt_ms': None, 'caller': 'in_handler'}
+        for val in ('set', 'bytearray', 'ndarray', 'tuple', 'nested'):
+            yield {'end': end, 'k': 3, 'work_ms': 100, 'emit_cost_ms': 0, 'interval_ms': 250, 'preempt_ms': None, 'cfg_val': val}
+        for prior in ('clean', 'failed'):
+            yield {'end': end, 'k': 3, 'work_ms': 100, 'emit_cost_ms': 0, 'interval_ms': 250, 'preempt_ms': None, 'prior': prior}
         for key in ('traffic-light', 'class', '1', 'a.b', ''):
             yield {'end': end, 'k': 3, 'work_ms': 100, 'emit_cost_ms': 0, 'interval_ms': 250, 'preempt_ms': None, 'cfg_key': key}
 
@@ -236,6 +274,8 @@ case_st = st.fixed_dictionaries({
     'emit_cost_ms': st.sampled_from([0, 0, 1, 30, 99, 100, 400, 1500]), 'interval_ms': st.sampled_from([100, 250, 1000, 1000, 3000]),
     'preempt_ms': st.sampled_from([None, 0, 1, 7, 40, 99, 250]),
     'caller': st.sampled_from(['plain', 'plain', 'in_handler']),     # where run() is called from
+    'cfg_val': st.sampled_from([None, None, None, 'set', 'frozenset', 'bytearray', 'bytes', 'tuple', 'none', 'nested', 'ndarray', 'float_nan']),
+    'prior': st.sampled_from([None, None, None, 'clean', 'failed']),     # an earlier run in the same process, through the same emitter
     'cfg_key': st.sampled_from([None, None, 'car', 'traffic-light', 'traffic light', '1', 'class', 'a.b', 'Person', '_x', 'b\u00e4r', '', 'person ', 'x/y', 'type']),
 })
 
